@@ -311,6 +311,9 @@ def get_item(I, cont, key, node):
         I.reads.append(("dict_key", (sc, k)))
         if I.choose(present, "key_present"):
             _wf_dict(I, sc, k)
+            h = getattr(I, "dict_entry_hook", None)
+            if h is not None:
+                h(I, sc, k)
             return z3.simplify(z3.Select(Val.dvals(sc), k))
         I.throw("KeyError", V.VStr(k))
     if cn in ("list", "tuple", "str", "bytes"):
